@@ -80,11 +80,11 @@ def gen(rng, tier):
         # python style
         lines = []
         for _ in range(rng.randrange(1, 7)):
-            k = rng.choice([b"a", b"b", b"key"])
-            v = rng.choice([b"1", b"v # not a comment", b"x = y", b"\"q\"", b"", b"l1"])
+            k = rng.choice([b"a", b"b", b"key", b"\xc3\xbcbung", b"\xe9t\xe9"])
+            v = rng.choice([b"1", b"v # not a comment", b"x = y", b"\"q\"", b"", b"l1", b"\xc3\xa4pfel"])
             lines.append(k + rng.choice([b"=", b" = ", b": "]) + v)
             for _ in range(rng.randrange(0, 3)):
-                lines.append(rng.choice([b"  ", b"\t", b" "]) + rng.choice([b"cont = x", b"more # text", b"plain", b"k2: v2", b"\"quoted\"", b"beta=2", b"delta=4=4", b"k2:v2", b"=y", b"two words=3"]))
+                lines.append(rng.choice([b"  ", b"\t", b" "]) + rng.choice([b"cont = x", b"more # text", b"plain", b"k2: v2", b"\"quoted\"", b"beta=2", b"delta=4=4", b"k2:v2", b"=y", b"two words=3", b"\xc3\xa4pfel", b"\xe6\x97\xa5\xe6\x9c\xac = tee # x", b"\xff\xfe"]))
         s = Scenario([gens.parse_cmd(0, b"/p/f.conf", b"\n".join(lines) + b"\n", rng.choice([b"=", b":="]), b"#", True, False), "getall 0", "dump 0"],
                      [True, True, True], tags=("python",))
         out.append(s)
